@@ -152,6 +152,50 @@ func (oc *origCtx) compute(v ssa.Value) Origin {
 					return o
 				}
 			}
+			// load of an element/field of a local array or struct variable (rows := [2][]T{…}; rows[j&1]):
+			// join of everything stored into any of its elements, provided the variable does not escape
+			var al *ssa.Alloc
+			switch a := x.X.(type) {
+			case *ssa.IndexAddr:
+				al, _ = a.X.(*ssa.Alloc)
+			case *ssa.FieldAddr:
+				al, _ = a.X.(*ssa.Alloc)
+			}
+			if al != nil {
+				o := none()
+				o.Fresh = true // the zero value of an element aliases nothing
+				escapes := false
+				for _, r := range referrersOf(al) {
+					switch y := r.(type) {
+					case *ssa.IndexAddr, *ssa.FieldAddr:
+						for _, r2 := range referrersOf(y.(ssa.Value)) {
+							switch z := r2.(type) {
+							case *ssa.Store:
+								if z.Addr == y.(ssa.Value) {
+									o = joinO(o, oc.of(z.Val))
+								} else {
+									escapes = true
+								}
+							case *ssa.UnOp, *ssa.DebugRef:
+							default:
+								escapes = true
+							}
+						}
+					case *ssa.Store:
+						if y.Addr == ssa.Value(al) {
+							o = joinO(o, oc.of(y.Val))
+						} else {
+							escapes = true
+						}
+					case *ssa.UnOp, *ssa.DebugRef:
+					default:
+						escapes = true
+					}
+				}
+				if !escapes {
+					return o
+				}
+			}
 			o := none()
 			o.Unknown = true
 			o.Why = "load " + sym(x)
